@@ -281,7 +281,6 @@ impl Sim {
                 "ov": self.k.sequence_state.overlapped_sequence.clone(),
                 "raw": self.k.sequence_state.raw_oscs.iter().map(|o| o.as_u16()).collect::<Vec<u16>>(),
                 "ttl": self.k.sequence_state.ticks_until_timeout,
-                "timeout": self.k.sequence_state.sequence_timeout,
                 "mode": format!("{:?}", self.k.sequence_state.sequence_input_mode),
             },
             // chords v2 (private state): only the two public predicates are observable without hooks
